@@ -11,7 +11,7 @@ def sweep_scenarios(seed, tier):
     out = []
     presets = ["diag_nuts", "lowrank_nuts", "flow_nuts"]
     for i, preset in enumerate(presets):
-        for variant in range(1 if tier == "quick" else 3):
+        for variant in range(1 if tier == "quick" else 6):
             st = {"num_tune": 10 if preset != "lowrank_nuts" else 10, "num_draws": 4 if tier == "quick" else 12,
                   "maxdepth": rnd.choice([3, 4]), "seed": rnd.randrange(1 << 30),
                   "trajectory_kind": "Euclidean" if variant != 1 else "ExactNormal"}
@@ -23,7 +23,7 @@ def sweep_scenarios(seed, tier):
             out.append({"preset": preset, "dim": 2, "density": dens, "settings": st, "seed": rnd.randrange(1 << 30),
                         "init": [0.3, -0.2],
                         "sweep": {"stride": 1 if tier == "thorough" else 2, "offset": rnd.randrange(2),
-                                  "pairs": 40 if tier == "quick" else 600}})
+                                  "pairs": 40 if tier == "quick" else 3000}})
     return out
 
 
